@@ -1,3 +1,4 @@
+pub(crate) mod clock;
 mod eval_utils;
 mod ident_filter;
 mod scoped_counter;
